@@ -203,6 +203,14 @@ class Unknown(Token):
     """
 
 
+def _is_symbol(token, symbol):
+    """
+    Return True if the token is the operator or punctuator `symbol`, and not
+    a string or character constant that is merely spelled like it.
+    """
+    return isinstance(token, (Operator, Punctuator)) and token.token == symbol
+
+
 class Lexer:
     """
     A lexer for the C preprocessor grammar.
@@ -1415,9 +1423,9 @@ class Macro:
         self.replacement = replacement
 
         if isinstance(self.replacement, list) and len(self.replacement) > 0:
-            if self.replacement[0].token == "##":
+            if _is_symbol(self.replacement[0], "##"):
                 raise RuntimeError("Found ## operator at start of replacement")
-            elif self.replacement[-1].token == "##":
+            elif _is_symbol(self.replacement[-1], "##"):
                 raise RuntimeError("Found ## operator at end of replacement")
             self.replacement[0].prev_white = False
             self.preproc_replacement()
@@ -1437,7 +1445,7 @@ class Macro:
 
         while idx < len(self.replacement):
             tok = self.replacement[idx]
-            if tok.token == "##":
+            if _is_symbol(tok, "##"):
                 last = res_tokens.pop()
                 arg_idx = self.which_arg(last.token)
                 if arg_idx != -1:
@@ -1463,7 +1471,7 @@ class Macro:
                         f"Invalid concatenation: {lex.string}",
                     )
                 tok.prev_white = last.prev_white
-            elif tok.token == "#":
+            elif _is_symbol(tok, "#"):
                 if isinstance(self, MacroFunction):
                     self.has_strcat = True
             idx += 1
@@ -1476,11 +1484,14 @@ class Macro:
             arg_idx = self.which_arg(tok.token)
             if arg_idx == -1 or not isinstance(tok, Identifier):
                 continue
-            if idx > 0 and self.replacement[idx - 1].token in ["#", "##"]:
+            if idx > 0 and (
+                _is_symbol(self.replacement[idx - 1], "#")
+                or _is_symbol(self.replacement[idx - 1], "##")
+            ):
                 continue
             if (
                 idx + 1 < len(self.replacement)
-                and self.replacement[idx + 1].token == "##"
+                and _is_symbol(self.replacement[idx + 1], "##")
             ):
                 continue
             self.arg_needs_expansion[arg_idx] = True
@@ -1581,7 +1592,7 @@ class MacroFunction(Macro):
 
             while idx < len(self.replacement):
                 tok = self.replacement[idx]
-                if tok.token == "##":
+                if _is_symbol(tok, "##"):
                     if placemarker:
                         # The preceding ## joined two empty operands
                         last = []
@@ -1626,7 +1637,7 @@ class MacroFunction(Macro):
                         final.extend([True] * len(last + nexttok))
                     placemarker = len(last) + len(nexttok) == 0
                     last_cat = True
-                elif tok.token == "#":
+                elif _is_symbol(tok, "#"):
                     idx += 1
                     if idx == len(self.replacement):
                         raise ParseError(
@@ -1875,11 +1886,11 @@ class MacroExpander:
                 if ctok.token == "defined":
                     try:
                         tok = self.peek_tok()
-                        if tok.token == "(":
+                        if _is_symbol(tok, "("):
                             _ = self.consume_tok()
                             ident = self.consume_tok()
                             paren = self.peek_tok()
-                            if paren.token != ")":
+                            if not _is_symbol(paren, ")"):
                                 raise ParseError(
                                     "Expected ')' after 'defined' identifier",
                                 )
@@ -1911,7 +1922,7 @@ class MacroExpander:
 
                 if isinstance(macro_lookup, MacroFunction):
                     paren = self.peek_tok()
-                    if not paren or paren.token != "(":
+                    if not paren or not _is_symbol(paren, "("):
                         self.parser_stack[-1].pos -= 1
                         self.replace_tok(ctok)
                         continue
@@ -1923,7 +1934,7 @@ class MacroExpander:
 
                     while True:
                         tok = self.consume_tok()
-                        if tok.token == "," and open_paren_count == 1:
+                        if _is_symbol(tok, ",") and open_paren_count == 1:
                             # Commas between variable arguments are kept
                             # as written; they are part of __VA_ARGS__.
                             if not (
@@ -1934,9 +1945,9 @@ class MacroExpander:
                                 current_arg = []
                                 continue
 
-                        if tok.token == "(":
+                        if _is_symbol(tok, "("):
                             open_paren_count += 1
-                        elif tok.token == ")":
+                        elif _is_symbol(tok, ")"):
                             open_paren_count -= 1
                             if open_paren_count == 0:
                                 args.append(current_arg)
